@@ -124,7 +124,6 @@ def execute(plan, tape):
     fs, f_range = band['fs'], tuple(band['f_range'])
     sigs = _variant(np.array([build_signal(s, band) for s in plan['rows']]), plan.get('array_variant'))
     R = len(sigs)
-    sigs0 = sigs.copy()
 
     with quiet(), pristine.active():
         refs = []
@@ -196,9 +195,6 @@ def execute(plan, tape):
             check_result(plan, res, out, refs, R)
             if res.vclass is None and bg is not None:
                 check_models(res, bg, out, sigs, fs, f_range, R)
-            d = diff(sigs, sigs0)
-            if d and res.vclass is None:
-                res.violate('input-mutated', 'sigs', 'the caller\'s 2-D array was modified: ' + d)
 
     # reach probes
     if plan['n_jobs'] > R:
